@@ -991,7 +991,13 @@ void apply_op(vh::Case &c, vh::Reader &rd, tr::Span &span, Model &m, OpStats &st
     {
       tr::EndSpanOptions eo;
       bool given = rd.chance(40);
-      int64_t end_steady = m.steady_start + static_cast<int64_t>(rd.u32());
+      uint32_t span_ns   = rd.u32();
+      // boundary durations: a zero-length span (end == start) and 1 ns; derived from the drawn value, no extra byte
+      if (span_ns % 5 == 3)
+        span_ns = 0;
+      else if (span_ns % 5 == 4)
+        span_ns = 1;
+      int64_t end_steady = m.steady_start + static_cast<int64_t>(span_ns);
       // a default constructed (0) end_steady_time means "not given" by API design
       given = given && end_steady != 0;
       if (given)
